@@ -21,7 +21,7 @@ use vrp_core::construction::features::{
 use vrp_core::construction::heuristics::{InsertionContext, InsertionSuccess, UnassignmentInfo};
 use vrp_core::models::common::{Demand, Schedule, SingleDimLoad, TimeWindow};
 use vrp_core::models::problem::{
-    Actor, Job, JobPlaceBuilder, MatrixData, MultiBuilder, Single, SingleBuilder, TransportCost, VehicleBuilder, create_matrix_transport_cost,
+    Actor, Job, JobIdDimension, JobPlaceBuilder, MatrixData, MultiBuilder, Single, SingleBuilder, TransportCost, VehicleBuilder, create_matrix_transport_cost,
     VehicleDetailBuilder, VehicleIdDimension,
 };
 use vrp_core::models::solution::{Activity, Place as ActivityPlace};
@@ -472,6 +472,11 @@ fn build_single(idx: usize, task_idx: Option<usize>, task: &TaskSpec, value: Opt
     b.build().map_err(err)
 }
 
+/// Weight of an unassigned job under `Layer::Unassigned2` (by the job's index in the spec).
+pub fn unassigned_weight(job_idx: usize) -> f64 {
+    [0.5, 1.0, 2.0][job_idx % 3]
+}
+
 fn build_goal(spec: &MicroSpec, transport: Arc<dyn TransportCost>) -> Result<vrp_core::models::GoalContext, String> {
     let transports = spec.layers.iter().filter(|l| matches!(l, Layer::Distance | Layer::Cost)).count();
     if transports != 1 {
@@ -492,7 +497,14 @@ fn build_goal(spec: &MicroSpec, transport: Arc<dyn TransportCost>) -> Result<vrp
                 .set_transport_cost(transport.clone())
         };
         let feature = match layer {
-            Layer::Unassigned | Layer::Unassigned2 => MinimizeUnassignedBuilder::new(layer.name()).build(),
+            Layer::Unassigned => MinimizeUnassignedBuilder::new(layer.name()).build(),
+            // the second instance weighs jobs differently (as the pragmatic `breaks` weight does): 0.5, 1 or 2 by job index
+            Layer::Unassigned2 => MinimizeUnassignedBuilder::new(layer.name())
+                .set_job_estimator(|_, job| {
+                    let id = job.dimens().get_job_id().cloned().unwrap_or_default();
+                    unassigned_weight(id.trim_start_matches('j').parse::<usize>().unwrap_or(0))
+                })
+                .build(),
             Layer::Tours | Layer::Tours2 => create_minimize_tours_feature(layer.name()),
             Layer::MaxTours => create_maximize_tours_feature(layer.name()),
             Layer::Distance => tfb().build_minimize_distance(),
